@@ -9,6 +9,8 @@ import json, os, subprocess, sys, shutil
 HERE = os.path.dirname(os.path.abspath(__file__))
 VERIF = os.path.dirname(HERE)
 REPO = "/repo"
+OWN = "--own" in sys.argv   # fast regression mode: only the check of the change's own property and the checks recorded as catching it
+if OWN: sys.argv.remove("--own")
 names = sys.argv[1:] or sorted(d for d in os.listdir(os.path.join(VERIF, "seeded")) if os.path.exists(os.path.join(VERIF, "seeded", d, "patch.diff")))
 wt = "/tmp/vf_matrix_wt"
 subprocess.run(["git", "-C", REPO, "worktree", "remove", "--force", wt], capture_output=True)
@@ -23,13 +25,21 @@ try:
         r = subprocess.run(["git", "-C", wt, "apply", patch], capture_output=True, text=True)
         if r.returncode:
             print(n, "PATCH DOES NOT APPLY", r.stderr[:300]); matrix[n] = {"error": "patch does not apply"}; continue
-        r = subprocess.run([sys.executable, os.path.join(HERE, "eval_mutant.py"), wt], capture_output=True, text=True)
+        ids = []
+        if OWN:
+            ids = [n.split("_")[0]]
+            try:
+                meta = json.load(open(os.path.join(VERIF, "seeded", n, "meta.json")))
+                ids += [c for c in meta.get("confirmed", {}).get("caught_by_quick_checks", []) if c not in ids]
+            except Exception:
+                pass
+        r = subprocess.run([sys.executable, os.path.join(HERE, "eval_mutant.py"), wt] + ids, capture_output=True, text=True)
         caught, errors, first = [], [], {}
         for l in r.stdout.splitlines():
             p = l.split()
             if len(p) >= 2 and p[1] == "CAUGHT": caught.append(p[0]); first[p[0]] = l[l.index("CAUGHT") + 7:][:300]
             if len(p) >= 2 and p[1].startswith("ERROR"): errors.append(p[0])
-        matrix[n] = {"caught_by": caught, "machinery_errors": errors, "first_violation": first}
+        matrix[n] = {"caught_by": caught, "machinery_errors": errors, "first_violation": first, "checks_run": ids or "all"}
         print(n, "caught by", caught, ("ERRORS " + str(errors)) if errors else "", flush=True)
         json.dump(matrix, open(mpath, "w"), indent=1, sort_keys=True)
 finally:
